@@ -204,12 +204,12 @@ def run_prep_leg(ctx, out):
             out.assumptions.append(a)
     model_check(ctx, out)
     jobs = []
-    beh = behaviours(ctx, out, 24 if ctx.quick else 400)
+    beh = behaviours(ctx, out, 24 if ctx.quick else 300)
     for i, (prep, script) in enumerate(beh):
         if prep["procs"][prepsim.REQUIRED :] == [0] and i % 2 == 0 and not (prep["flt"]["kind"] == "seed" and prep["flt"]["p"] > prepsim.REQUIRED):
             prep = dict(prep, default=True)
         jobs.append({"prep": prep, "script": script, "seed": ctx.seed + i})
-    jobs += random_jobs(ctx, 5 if ctx.quick else 60, 6 if ctx.quick else 60)
+    jobs += random_jobs(ctx, 5 if ctx.quick else 40, 6 if ctx.quick else 40)
     stats, index = run_jobs(ctx, out, jobs, "prep")
     out.extra["prep_leg"] = dict(stats, races=len(jobs), from_tlc=len(beh))
     if stats["fired"] < stats["faulty"] or stats["faulty"] < len(jobs) // 3:
